@@ -108,7 +108,7 @@ T = [
  ("C18-C", "C18", "C18.R1", "RDPToken.ToBytes recomputes Length"),
  ("C18-D", "C18", "C18.R1", "openvpn MessageAuth reads the packet id one byte early"),
 ]
-NEUTRAL = ["neutral%d-N%d" % (a, b) for a in (1, 2) for b in range(1, 9)]
+NEUTRAL = ["neutral%d-N%d" % (a, b) for a in (1, 2, 3, 4, 5) for b in range(1, 9)]
 PROPS = ["C%02d" % i for i in range(1, 19)]
 out = []
 for d, prop, expect, why in T:
